@@ -406,12 +406,13 @@ func (te *tableEngine) calcGamePlayerIndexes(rule string, maxSeatCount, currentD
 	gamePlayerIndexes := make([]int, 0)
 	playerPositions := make(map[int][]string) // key: player_index, value: positions
 	if rule == CompetitionRule_ShortDeck {
-		dealerPlayerIdx := seatMap[currentDealerSeatID]
-		for i := dealerPlayerIdx; i < playerLen+dealerPlayerIdx; i++ {
-			playerIdx := i % playerLen
-			if players[playerIdx].IsParticipated {
+		// clockwise by seat from the dealer seat (the player list is in arrival order, not in seat order)
+		for i := currentDealerSeatID; i < len(seatMap)+currentDealerSeatID; i++ {
+			seatID := i % len(seatMap)
+			playerIdx := seatMap[seatID]
+			if playerIdx >= 0 && playerIdx < playerLen && players[playerIdx].IsParticipated {
 				positions := make([]string, 0)
-				if i == dealerPlayerIdx {
+				if seatID == currentDealerSeatID {
 					positions = append(positions, Position_Dealer)
 				}
 				playerPositions[playerIdx] = positions
